@@ -203,13 +203,19 @@ def loop_exits(run, lc):
     loop = {x for x in reach if P in cfg.reachable_from(x)}
     loop.add(P)
     def arm(cls_prefix, names, kind="discr", cls_len=None):
-        out = []
+        hits = []
         for bb, info in lc.switch_info.items():
             c = info["cls"]
             if c and c[:len(cls_prefix)] == cls_prefix and info["kind"] == kind and (cls_len is None or len(c) == cls_len):
-                for nme in names:
-                    if nme in info["arms"]:
-                        out.append(info["arms"][nme])
+                hits.append((bb, info))
+        out = []
+        for bb, info in hits:
+            # a later re-test of the same received value (e.g. on the recorded exit reason, after the loop) is not a select! arm
+            if any(b2 != bb and bb in cfg.reachable_from(b2) and b2 not in cfg.reachable_from(bb) for b2, _ in hits):
+                continue
+            for nme in names:
+                if nme in info["arms"]:
+                    out.append(info["arms"][nme])
         return out
     term_arms = arm(("recv", "ctrl"), ["Some", "None"], cls_len=3)
     if not term_arms and lc.ctrl_split_by_predicate():
